@@ -5,6 +5,7 @@ import (
 	"fmt"
 	"io"
 	"math/big"
+	"math/bits"
 	"os"
 	"os/exec"
 	"strings"
@@ -71,6 +72,8 @@ type Solver struct {
 	st           *SolverStats
 	usePortfolio bool
 	oneShot      bool
+	favorite     string
+	stage        int
 	pfCap        time.Duration
 	varOrder     []string
 	pfModel      map[string]uint64
@@ -326,6 +329,27 @@ func (s *Solver) sg(x string, w int) string {
 	return fmt.Sprintf("(ite (< %s %s) %s (- %s %s))", x, pow2(w-1), x, x, pow2(w))
 }
 
+// sgT is sg for a term: provably non-negative values need no reinterpretation.
+func (s *Solver) sgT(t *Term, x string) string {
+	if _, hi := ubounds(t); hi < uint64(1)<<uint(t.S.W-1) {
+		return x
+	}
+	return s.sg(x, t.S.W)
+}
+
+func addNoWrap(t *Term) bool {
+	_, h0 := ubounds(t.Args[0])
+	_, h1 := ubounds(t.Args[1])
+	return h0+h1 >= h0 && h0+h1 <= mask(t.S.W)
+}
+
+func mulNoWrapAny(t *Term) bool {
+	_, h0 := ubounds(t.Args[0])
+	_, h1 := ubounds(t.Args[1])
+	hh, ll := bits.Mul64(h0, h1)
+	return hh == 0 && ll <= mask(t.S.W)
+}
+
 const eps53 = "(/ 1.0 9007199254740992.0)"
 
 // roundAxioms constrains r to be a correctly rounded float64 of the exact real q.
@@ -341,17 +365,28 @@ func (s *Solver) bodyInt(t *Term, a []string) string {
 	M := pow2(w)
 	switch t.Op {
 	case OpAdd:
+		if addNoWrap(t) {
+			return fmt.Sprintf("(+ %s %s)", a[0], a[1])
+		}
 		return fmt.Sprintf("(mod (+ %s %s) %s)", a[0], a[1], M)
 	case OpSub:
+		if l0, _ := ubounds(t.Args[0]); true {
+			if _, h1 := ubounds(t.Args[1]); l0 >= h1 {
+				return fmt.Sprintf("(- %s %s)", a[0], a[1])
+			}
+		}
 		return fmt.Sprintf("(mod (- %s %s) %s)", a[0], a[1], M)
 	case OpMul:
+		if mulNoWrapAny(t) {
+			return fmt.Sprintf("(* %s %s)", a[0], a[1])
+		}
 		return fmt.Sprintf("(mod (* %s %s) %s)", a[0], a[1], M)
 	case OpUDiv:
 		return fmt.Sprintf("(div %s %s)", a[0], a[1])
 	case OpURem:
 		return fmt.Sprintf("(mod %s %s)", a[0], a[1])
 	case OpSDiv, OpSRem:
-		x, y := s.sg(a[0], w), s.sg(a[1], w)
+		x, y := s.sgT(t.Args[0], a[0]), s.sgT(t.Args[1], a[1])
 		q := fmt.Sprintf("(let ((x %s) (y %s)) (ite (>= x 0) (ite (> y 0) (div x y) (- (div x (- y)))) (ite (> y 0) (- (div (- x) y)) (div (- x) (- y)))))", x, y)
 		if t.Op == OpSDiv {
 			return fmt.Sprintf("(mod %s %s)", q, M)
@@ -397,9 +432,9 @@ func (s *Solver) bodyInt(t *Term, a []string) string {
 	case OpUle, OpFLe:
 		return fmt.Sprintf("(<= %s %s)", a[0], a[1])
 	case OpSlt:
-		return fmt.Sprintf("(< %s %s)", s.sg(a[0], t.Args[0].S.W), s.sg(a[1], t.Args[0].S.W))
+		return fmt.Sprintf("(< %s %s)", s.sgT(t.Args[0], a[0]), s.sgT(t.Args[1], a[1]))
 	case OpSle:
-		return fmt.Sprintf("(<= %s %s)", s.sg(a[0], t.Args[0].S.W), s.sg(a[1], t.Args[0].S.W))
+		return fmt.Sprintf("(<= %s %s)", s.sgT(t.Args[0], a[0]), s.sgT(t.Args[1], a[1]))
 	case OpBAnd, OpBOr:
 		return fmt.Sprintf("(%s %s %s)", opNames[t.Op], a[0], a[1])
 	case OpBNot:
@@ -409,6 +444,9 @@ func (s *Solver) bodyInt(t *Term, a []string) string {
 	case OpZExt:
 		return a[0]
 	case OpSExt:
+		if _, hi := ubounds(t.Args[0]); hi < uint64(1)<<uint(t.Args[0].S.W-1) {
+			return a[0]
+		}
 		return fmt.Sprintf("(mod %s %s)", s.sg(a[0], t.Args[0].S.W), M)
 	case OpExtract:
 		return fmt.Sprintf("(mod (div %s %s) %s)", a[0], pow2(t.B), pow2(t.A-t.B+1))
@@ -434,7 +472,10 @@ func (s *Solver) bodyInt(t *Term, a []string) string {
 	case OpI2F:
 		v := a[0]
 		if t.A == 1 {
-			v = s.sg(a[0], t.Args[0].S.W)
+			v = s.sgT(t.Args[0], a[0])
+		}
+		if _, hi := ubounds(t.Args[0]); hi <= 1<<53 {
+			return fmt.Sprintf("(to_real %s)", v) // exact: |v| <= 2^53
 		}
 		// exact for |v| <= 2^53; otherwise a correctly rounded neighbour (relative error 2^-53)
 		r := s.freshName("fl")
@@ -511,6 +552,10 @@ func (s *Solver) Check(lit *Term, neg bool) Result {
 	if s.oneShot {
 		res = s.portfolio(cmd)
 		atomic.AddInt64(&s.st.WallNs, int64(time.Since(t0)))
+		if d := os.Getenv("SYMGO_DUMP_SLOW"); d != "" && time.Since(t0) > 3*time.Second {
+			n := atomic.AddInt64(&dumpN, 1)
+			os.WriteFile(fmt.Sprintf("%s/slow%03d_%s_%ds.smt2", d, n, res, int(time.Since(t0).Seconds())), []byte("(set-logic ALL)\n"+strings.Join(s.script, "\n")+"\n"+cmd+"\n"), 0o644)
+		}
 		if d := os.Getenv("SYMGO_DUMP_UNKNOWN"); d != "" && res == Unknown {
 			n := atomic.AddInt64(&dumpN, 1)
 			os.WriteFile(fmt.Sprintf("%s/q%03d.smt2", d, n), []byte(strings.Join(s.script, "\n")+"\n"+cmd+"\n"), 0o644)
@@ -602,8 +647,27 @@ func (s *Solver) portfolio(cmd string) Result {
 	if s.pfCap > 0 {
 		portfolioCap = s.pfCap
 	}
-	kinds := [][]string{{"z3", "z3", "-T:" + fmt.Sprint(int(portfolioCap.Seconds())), f.Name()}, {"z3new", "z3-new", "-T:" + fmt.Sprint(int(portfolioCap.Seconds())), f.Name()},
-		{"cvc5", "cvc5", "--lang", "smt2", "--tlimit=" + fmt.Sprint(portfolioCap.Milliseconds()), f.Name()}}
+	mk := func(capd time.Duration) [][]string {
+		secs := int(capd.Seconds())
+		if secs < 1 {
+			secs = 1
+		}
+		return [][]string{{"z3", "z3", "-T:" + fmt.Sprint(secs), f.Name()}, {"z3new", "z3-new", "-T:" + fmt.Sprint(secs), f.Name()},
+			{"cvc5", "cvc5", "--lang", "smt2", "--tlimit=" + fmt.Sprint(capd.Milliseconds()), f.Name()}}
+	}
+	kinds := mk(portfolioCap)
+	// head start for the solver that answered last time (avoids starving it with two hopeless runs)
+	if s.favorite != "" && s.stage == 0 {
+		head := 4 * time.Second
+		if head > portfolioCap {
+			head = portfolioCap
+		}
+		for _, k := range mk(head) {
+			if k[0] == s.favorite {
+				kinds = [][]string{k}
+			}
+		}
+	}
 	ch := make(chan ans, len(kinds))
 	var cmds []*exec.Cmd
 	for _, k := range kinds {
@@ -648,6 +712,7 @@ func (s *Solver) portfolio(cmd string) Result {
 		}(k[0], c)
 	}
 	final := Unknown
+	winner := ""
 	got := 0
 	conflict := false
 	for got < len(kinds) {
@@ -656,6 +721,7 @@ func (s *Solver) portfolio(cmd string) Result {
 		if a.r != Unknown {
 			if final == Unknown {
 				final = a.r
+				winner = a.k
 				s.pfModel = a.m
 				st := statFor("portfolio:" + a.k)
 				gStats.Lock()
@@ -676,6 +742,16 @@ func (s *Solver) portfolio(cmd string) Result {
 		fmt.Fprintln(os.Stderr, "ENGINE ERROR: solver disagreement in portfolio")
 		atomic.AddInt64(&gSolverConflicts, 1)
 		return Unknown
+	}
+	if final == Unknown && len(kinds) == 1 {
+		// the favourite alone did not answer within its head start: full portfolio
+		s.stage = 1
+		r := s.portfolio(cmd)
+		s.stage = 0
+		return r
+	}
+	if final != Unknown {
+		s.favorite = winner
 	}
 	return final
 }
